@@ -62,10 +62,18 @@ SITE = {
     ("==", "threadempty"): ["import threading", "r = []", "t = threading.Thread(target=lambda: r.append(5 == snapshot()))", "t.start()", "t.join()", "assert r[0]"],
     ("<=", "threadempty"): ["from concurrent.futures import ThreadPoolExecutor", "with ThreadPoolExecutor(1) as ex:", "    assert ex.submit(lambda: 5 <= snapshot()).result()"],
     ("in", "threadwrong"): ["from concurrent.futures import ThreadPoolExecutor", "with ThreadPoolExecutor(1) as ex:", "    assert ex.submit(lambda: 5 in snapshot([4])).result()"],
+    # the snapshot is created by the test function, only the comparison happens in the other thread
+    ("==", "threadcmpgood"): ["import threading", "s = snapshot(5)", "r = []", "t = threading.Thread(target=lambda: r.append(5 == s))", "t.start()", "t.join()", "assert r == [True]"],
+    ("==", "threadcmpwrong"): ["import threading", "s = snapshot(4)", "r = []", "t = threading.Thread(target=lambda: r.append(5 == s))", "t.start()", "t.join()", "assert r == [True]"],
+    ("==", "threadcmpempty"): ["import threading", "s = snapshot()", "r = []", "t = threading.Thread(target=lambda: r.append(5 == s))", "t.start()", "t.join()", "assert r == [True]"],
+    ("<=", "threadcmpempty"): ["from concurrent.futures import ThreadPoolExecutor", "s = snapshot()", "with ThreadPoolExecutor(2) as ex:", "    assert all(ex.map(lambda x: x <= s, [1, 3, 2]))"],
+    ("in", "threadcmpempty"): ["from concurrent.futures import ThreadPoolExecutor", "s = snapshot()", "with ThreadPoolExecutor(1) as ex:", "    assert ex.submit(lambda: 5 in s).result()"],
+    ("[k]", "threadcmpempty"): ["import threading", "s = snapshot({'a': 1})", "r = []", "t = threading.Thread(target=lambda: r.append(s['b'] == 5))", "t.start()", "t.join()", "assert r == [True]"],
+    ("in", "threadcmpwrong"): ["from concurrent.futures import ThreadPoolExecutor", "s = snapshot([4])", "with ThreadPoolExecutor(1) as ex:", "    assert ex.submit(lambda: 5 in s).result()"],
     ("[k]<=", "wrong"): ['assert 8 <= snapshot({"a": 5})["a"]'],
     ("[k]in", "wrong"): ['assert 8 in snapshot({"a": [5]})["a"]'],
 }
-BAD = {"wrong", "empty", "wrongkey", "loopbad", "loopbadlast", "wrongnested", "nosrcwrong", "nosrcempty", "threadwrong", "threadempty"}
+BAD = {"wrong", "empty", "wrongkey", "loopbad", "loopbadlast", "wrongnested", "nosrcwrong", "nosrcempty", "threadwrong", "threadempty", "threadcmpwrong", "threadcmpempty"}
 OPS = ("==", "<=", ">=", "in", "[k]")
 
 
